@@ -416,7 +416,9 @@ pub fn serde_roundtrip<S: USet>(e: &mut Eng<S>, i: usize, k: usize) {
         write!(l, " {}", x).unwrap();
     }
     e.slots[k] = None;
+    let pushed = e.script_n(k, 6000);
     let back = alloc::under_test(|| S::from_json(&js));
+    let dr = e.script_done(pushed);
     match back {
         Err(err) => e.fail("C16,C19", format!("deserialising what was just serialised failed: {}", err)),
         Ok(b) => {
@@ -427,7 +429,7 @@ pub fn serde_roundtrip<S: USet>(e: &mut Eng<S>, i: usize, k: usize) {
                 e.emit(&format!("toarr {} {}{}", i, nums.len(), l));
                 e.slots[k] = Some(b);
                 let rp = e.repr(k);
-                e.emit(&format!("fromarr {} {}{} D R {}", k, nums.len(), l, rp));
+                e.emit(&format!("fromarr {} {}{}{} R {}", k, nums.len(), l, if dr.is_empty() { " D".to_string() } else { dr.clone() }, rp));
             } else {
                 // the default encoding is the member sequence in iteration order
                 e.emit(&format!("iter {} {}{}", i, nums.len(), l));
@@ -435,8 +437,10 @@ pub fn serde_roundtrip<S: USet>(e: &mut Eng<S>, i: usize, k: usize) {
                     e.fail("C16", format!("the serialised sequence has {} entries for a set of {} members", nums.len(), e.slots[i].as_ref().unwrap().len()));
                 }
                 e.slots[k] = Some(b);
-                // deserialisation = inserting one at a time into a new set (no draws are scripted here, so
-                // the representation is only compared when no growth happened: emit as new+ext in script mode only)
+                // deserialisation = inserting one at a time into a new set
+                let rp = e.repr(k);
+                e.emit(&format!("new {}", k));
+                e.emit(&format!("ext {} {}{}{} R {}", k, nums.len(), l, dr, rp));
             }
             e.oracle[k] = e.oracle[i].clone();
             e.hw[k] = e.hw[i];
@@ -453,10 +457,23 @@ pub fn serde_roundtrip<S: USet>(e: &mut Eng<S>, i: usize, k: usize) {
 pub fn serde_sequence<S: USet>(e: &mut Eng<S>, k: usize, v: &[u64]) {
     let js = format!("[{}]", v.iter().map(|x| x.to_string()).collect::<Vec<_>>().join(","));
     e.slots[k] = None;
-    match alloc::under_test(|| S::from_json(&js)) {
+    let pushed = e.script_n(k, 6000);
+    let res = alloc::under_test(|| S::from_json(&js));
+    let dr = e.script_done(pushed);
+    match res {
         Err(err) => e.fail("C16", format!("deserialising a plain sequence failed: {}", err)),
         Ok(b) => {
             e.slots[k] = Some(b);
+            {
+                use std::fmt::Write;
+                let mut l = String::new();
+                for x in v {
+                    write!(l, " {}", x).unwrap();
+                }
+                let rp = e.repr(k);
+                e.emit(&format!("new {}", k));
+                e.emit(&format!("ext {} {}{}{} R {}", k, v.len(), l, dr, rp));
+            }
             e.oracle[k] = v.iter().cloned().collect();
             e.hw[k] = e.oracle[k].len();
             e.hinted[k] = true;
